@@ -334,7 +334,7 @@ def fam_growth(tier, seed, tag, nruns, conc=False, faults=False):
 _EXH = {}
 
 
-def fam_exhaustive(tier, tag, variants=("plain", "backing", "special"), depth=None, sample=None, seed=1):
+def fam_exhaustive(tier, tag, variants=("plain", "backing", "special", "backing_short"), depth=None, sample=None, seed=1):
     """small-scope exhaustive histories (spec/GenOps.tla): every sequence of up
     to DEPTH operations on two guest clusters of a 4-cluster device, on three
     image variants (allocated/unallocated, backing-provided, compressed +
@@ -344,17 +344,7 @@ def fam_exhaustive(tier, tag, variants=("plain", "backing", "special"), depth=No
         _EXH[depth] = Q.tlc_enumerate("GenOps.tla", env={"DEPTH": str(depth)}, timeout=1800)[0]
     hist = _EXH[depth]
     geo = dict(cb=10, ro=4, bsb=9, vclusters=4, params={"l2": [9, 1024], "rb": [9, 1024]})
-    D = lambda g, kind, wid: {"g": g, "kind": kind, "wid": wid}
-    imgs = {
-        "plain": [{"kind": "build", "desc": {"cb": 10, "ro": 4, "vclusters": 4, "shuffle": 0, "holes": 0,
-                                             "clusters": [D(0, "data", 1), D(2, "data", 1)]}}],
-        "backing": [{"kind": "build", "desc": {"cb": 10, "ro": 4, "vclusters": 4, "shuffle": 0, "holes": 0,
-                                               "clusters": [D(1, "zero", 1)]}},
-                    {"kind": "build", "desc": {"cb": 10, "ro": 4, "vclusters": 4, "shuffle": 0, "holes": 0,
-                                               "clusters": [D(0, "data", 2), D(1, "data", 2), D(2, "data", 2), D(3, "data", 2)]}}],
-        "special": [{"kind": "build", "desc": {"cb": 10, "ro": 4, "vclusters": 4, "shuffle": 0, "holes": 0,
-                                               "clusters": [D(0, "comp", 1), D(1, "zero_prealloc", 1), D(2, "data", 1)]}}],
-    }
+    imgs = _exh_images()
     rng = random.Random(seed * 1237 + depth)
     out = []
     rd = {"op": "read", "gb": 0, "n": 8}
@@ -370,7 +360,7 @@ def fam_exhaustive(tier, tag, variants=("plain", "backing", "special"), depth=No
                     gb, n = {"full": (g * 2, 2), "head": (g * 2, 1), "tail": (g * 2 + 1, 1), "both": (0, 4)}[part]
                     steps.append({"op": "write" if o["op"] == "w" else "discard", "gb": gb, "n": n})
                 else:
-                    steps.append({"op": {"f": "flush", "s": "fsync", "k": "shrink", "r": "reopen"}[o["op"]]})
+                    steps.append({"op": {"f": "flush", "s": "fsync", "k": "shrink", "r": "reopen", "c": "check"}[o["op"]]})
             steps += [rd, {"op": "flush"}, {"op": "fsync"}, rd, {"op": "reopen"}, rd]
             code = "".join(o["op"] + (str(o["g"]) + o["part"][0] if o["op"] in "wd" else "") for o in h["ops"])
             out.append(S.mk(f"{tag}-{v}-{code}", geo, imgs[v], steps, sample_flag=True))
@@ -388,6 +378,9 @@ def _exh_images():
         "backing": [{"kind": "build", "desc": dict(base, clusters=[D(1, "zero", 1)])},
                     {"kind": "build", "desc": dict(base, clusters=[D(0, "data", 2), D(1, "data", 2), D(2, "data", 2), D(3, "data", 2)])}],
         "special": [{"kind": "build", "desc": dict(base, clusters=[D(0, "comp", 1), D(1, "zero_prealloc", 1), D(2, "data", 1)])}],
+        # a backing image that ends inside guest cluster 1 (after its first block): data above it comes from nowhere
+        "backing_short": [{"kind": "build", "desc": dict(base, clusters=[D(3, "data", 1)])},
+                          {"kind": "build", "desc": dict(base, vclusters=2, size_minus_sectors=1, clusters=[D(0, "data", 2), D(1, "data", 2)])}],
         # two preallocated zero clusters side by side (one multi-cluster write reuses both)
         "prealloc2": [{"kind": "build", "desc": dict(base, clusters=[D(0, "zero_prealloc", 1), D(1, "zero_prealloc", 1), D(3, "data", 1)])}],
     }
@@ -398,14 +391,14 @@ def _exh_step(o):
     if o["op"] in ("w", "d"):
         gb, n = {"full": (g * 2, 2), "head": (g * 2, 1), "tail": (g * 2 + 1, 1), "both": (0, 4)}[part]
         return {"op": "write" if o["op"] == "w" else "discard", "gb": gb, "n": n}
-    return {"op": {"f": "flush", "s": "fsync", "k": "shrink", "r": "reopen"}[o["op"]]}
+    return {"op": {"f": "flush", "s": "fsync", "k": "shrink", "r": "reopen", "c": "check"}[o["op"]]}
 
 
 def _exh_code(ops):
     return "".join(o["op"] + (str(o["g"]) + o["part"][0] if o["op"] in "wd" else "") for o in ops)
 
 
-def fam_exhaustive_par(tier, tag, variants=("plain", "backing", "special"), parn=None, seeds=(1, 2), sweep=0, sample=None, seed=1):
+def fam_exhaustive_par(tier, tag, variants=("plain", "backing", "special", "backing_short"), parn=None, seeds=(1, 2, 3), sweep=0, sample=None, seed=1):
     """concurrent small scope (spec/GenOps.tla, EmitPar): every multiset of two
     (thorough: also three) overlapping operations on two guest clusters, after
     every single-operation prefix, on three image variants, under several
@@ -843,6 +836,7 @@ def check_C01(chk):
     scens += fam_growth(chk.tier, chk.seed, "c01g", 4 if chk.tier == "quick" else 40)
     scens += fam_allocstress(chk.tier, chk.seed, "c01a", 6 if chk.tier == "quick" else 60)
     scens += fam_exhaustive(chk.tier, "c01e", seed=chk.seed)
+    scens += fam_exhaustive_par(chk.tier, "c01p", seed=chk.seed, seeds=(1, 2))
     scens += fam_regress()
     res, st = Q.run_batch(scens, chk.wd, known=chk.known_tags(), par=12)
     chk.consume(res, st, props=("C01",))
@@ -860,6 +854,8 @@ def check_C02(chk):
     scens += fam_backing(chk.tier, chk.seed, "c02b", n // 2, 18)
     scens += fam_wide(chk.tier, chk.seed, "c02w", 8 if chk.tier == "quick" else 80)
     scens += fam_exhaustive(chk.tier, "c02e", seed=chk.seed)
+    scens += fam_exhaustive_par(chk.tier, "c02p", seed=chk.seed, seeds=(1, 2))
+    scens += fam_outage(chk.tier, chk.seed, "c02o", 6 if chk.tier == "quick" else 40)
     scens += fam_regress()
     res, st = Q.run_batch(scens, chk.wd, known=chk.known_tags(), par=12)
     chk.consume(res, st, props=("C02",))
@@ -878,6 +874,8 @@ def check_C03(chk):
     scens += fam_allocstress(chk.tier, chk.seed, "c03a", 9 if chk.tier == "quick" else 90)
     scens += fam_wide(chk.tier, chk.seed, "c03w", 4 if chk.tier == "quick" else 40)
     scens += fam_exhaustive(chk.tier, "c03e", seed=chk.seed)
+    scens += fam_exhaustive_par(chk.tier, "c03p", seed=chk.seed, seeds=(1, 2))
+    scens += fam_growth(chk.tier, chk.seed, "c03g", 8 if chk.tier == "quick" else 48)
     scens += fam_regress()
     res, st = Q.run_batch(scens, chk.wd, known=chk.known_tags(), par=12)
     chk.consume(res, st, props=("C03",))
@@ -1083,6 +1081,7 @@ def check_C10(chk):
         scens.append(S.mk(f"c10t-{i}", geo, images, steps))
     scens += fam_cowread(chk.tier, chk.seed, "c10r", 40 if chk.tier == "quick" else 600)
     scens += fam_exhaustive(chk.tier, "c10e", seed=chk.seed)
+    scens += fam_exhaustive_par(chk.tier, "c10p", seed=chk.seed, seeds=(1, 2))
     scens += fam_regress()
     res, st = Q.run_batch(scens, chk.wd, known=chk.known_tags(), par=14)
     chk.consume(res, st, props=("C10", "C01", "C02", "C03", "PANIC"))
@@ -1135,6 +1134,7 @@ def check_C11(chk):
         scens.append(S.mk(f"c11-{i}", geo, images, steps))
     scens += fam_wide(chk.tier, chk.seed, "c11w", 10 if chk.tier == "quick" else 100)
     scens += fam_exhaustive(chk.tier, "c11e", seed=chk.seed)
+    scens += fam_exhaustive_par(chk.tier, "c11p", seed=chk.seed, seeds=(1, 2))
     scens += fam_regress()
     res, st = Q.run_batch(scens, chk.wd, known=chk.known_tags(), par=14)
     chk.consume(res, st, props=("C11", "C01", "C02", "C03", "C07", "PANIC"))
@@ -1212,6 +1212,10 @@ def check_C12(chk):
         steps += [{"op": "flush"}, {"op": "fsync"}] + rd + [{"op": "reopen"}] + rd
         scens.append(S.mk(f"c12-l1-{i}", geo, [img], steps))
     scens += fam_growth(chk.tier, chk.seed, "c12g", 8 if chk.tier == "quick" else 96)
+    gr_ = fam_growth(chk.tier, chk.seed, "c12c", 24 if chk.tier == "quick" else 120, conc=True)
+    for s_ in gr_:
+        s_["sched_sweep"] = 20 if chk.tier == "quick" else 60
+    scens += gr_
     scens += fam_regress()
     res, st = Q.run_batch(scens, chk.wd, mode="crash", known=chk.known_tags(), par=14)
     chk.consume(res, st, props=("C12", "C01", "C02", "C03", "C04", "C05", "C07", "PANIC"))
@@ -1526,6 +1530,14 @@ def check_C08(chk):
     for s_ in st_:
         s_["sample_ram"] = True
     scens += st_
+    # growth (new refblocks, refcount table relocation) and the concurrent small scope, with the in-ram view sampled
+    more = fam_growth(chk.tier, chk.seed, "c08g", 8 if chk.tier == "quick" else 48)
+    more += fam_growth(chk.tier, chk.seed, "c08gc", 8 if chk.tier == "quick" else 48, conc=True)
+    more += fam_exhaustive_par(chk.tier, "c08p", seed=chk.seed, seeds=(1, 2), variants=("plain", "special", "backing"))
+    for s_ in more:
+        s_["sample_ram"] = True
+    scens += more
+    scens += fam_regress()
     res, st = Q.run_batch(scens, chk.wd, known=chk.known_tags(), par=14)
     chk.consume(res, st, props=("C08", "C07", "PANIC"))
     for name, r in res.items():
